@@ -20,7 +20,7 @@ EXPLAIN = "c12_explain"
 CASES_PER_FILE = 120
 CASE_FILE_BYTES = 120000
 CASE_TIMEOUT = 10
-TIERS = {"quick": {"n": 2400}, "thorough": {"n": 40000}}
+TIERS = {"quick": {"n": 2400}, "thorough": {"n": 30000, "exhaustive": True}}
 RULE = ("BufferedSocket over a scripted socket: random byte streams over a 2-4 letter alphabet (delimiters recur and "
         "overlap), random and exhaustive compositions into deliveries (1-byte delivery included) with time-outs "
         "interleaved, recvsize 1-6 or large, maxsize around the delimiter position, call sequences of recv_until "
@@ -42,6 +42,15 @@ TRUSTED = ["Model/C12_Model.v is hand-written; tied to boltons.socketutils by th
 EXN = {"Timeout": "Timeout", "ConnectionClosed": "ConnectionClosed", "MessageTooLong": "MessageTooLong",
        "NetstringInvalidSize": "NetstringInvalidSize", "NetstringMessageTooLong": "NetstringMessageTooLong",
        "NetstringProtocolError": "NetstringProtocolError"}
+
+
+def translators(repo):
+    """(T) constants of boltons.socketutils the model relies on; fail closed."""
+    import os
+    import sys
+    sys.path.insert(0, os.path.join(os.path.dirname(os.path.abspath(__file__)), "translators"))
+    import c12_consts
+    return {"C12_Gen": c12_consts.translate(repo)}
 
 
 # --------------------------------------------------------------------------
@@ -553,8 +562,40 @@ def gen_ns(rng, tier):
             "rops": rops, "retry": rng.random() < 0.8}
 
 
+def gen_sweep(rng):
+    """Thorough tier: EVERY network for EVERY stream over {a,b} of length <= 4 (all compositions into
+    deliveries x a time-out or not before each delivery and at the end), x delimiters of length 1-3 x maxsize
+    1..len+1 x with/without delimiter, under a fixed call sequence ending in recv_close."""
+    delims = [[97], [98], [97, 98], [98, 97], [97, 97], [97, 97, 98], [97, 98, 97]]
+    for n in range(0, 5):
+        for bits in itertools.product([97, 98], repeat=n):
+            stream = list(bits)
+            nets = []
+            for parts in compositions(n):
+                for tm in itertools.product([0, 1], repeat=len(parts) + 1):
+                    cuts = []
+                    for t, p in zip(tm, parts):
+                        if t:
+                            cuts.append("T")
+                        cuts.append(p)
+                    if tm[-1]:
+                        cuts.append("T")
+                    nets.append(cut_stream(stream, cuts) + (["T"] if tm[-1] and n == 0 else []))
+            for net in nets:
+                d = rng.choice(delims)
+                m = rng.choice(list(range(0, n + 2)) + ["unset"])
+                w = rng.random() < 0.5
+                ops = [["until", d, m, w], ["peek", rng.randint(0, 2)], ["size", rng.randint(0, 2)],
+                       ["until", d, "unset", not w], ["close", rng.choice(["unset", 0, 1, None])]]
+                yield {"kind": "bs", "maxsize": rng.choice([2, 3, 100]), "recvsize": rng.choice([1, 2, 3, 64]),
+                       "timeout": None, "net": net, "script": [], "ops": ops, "retry": True}
+
+
 def generate(rng, tier, n):
     made = 0
+    if tier == "thorough":
+        for c in gen_sweep(rng):
+            yield c
     while made < n:
         r = rng.random()
         if r < 0.12:
